@@ -64,6 +64,9 @@ def gen_zdir(rng: random.Random, opts: Optional[pg.GenOpts] = None, n_pages=None
             if cand not in rels:
                 rels.append(cand)
                 break
+    for d in ("sub", "d2"):
+        if any(r.startswith(d + "/") for r in rels) and d + ".zo" not in rels and rng.random() < 0.3:
+            rels.append(d + ".zo")  # a page named like a sub-directory that holds pages
     for rel in rels:
         z.pages[rel] = gen.page()
     # a three-character ZID that extends another note's two-character ZID (240101#AB / 240101#ABc)
